@@ -1,6 +1,7 @@
 package resources
 
 import (
+	"sync"
 	"fmt"
 	streamConfig "lunar/engine/streams/config"
 	lunarContext "lunar/engine/streams/lunar-context"
@@ -180,4 +181,44 @@ func VerifC02Hist() {
 			verifAssert(c <= holding(id, false), "C02: every slot is given back (exactly once) when its transaction ends, or after expiry + GC")
 		}
 	}
+}
+
+// VerifC02Race: N transactions arrive at the same time at a concurrency quota with fewer free
+// slots than arrivals; at no schedule are more of them admitted than the maximum, and the
+// quota's bookkeeping is free of unsynchronised accesses.
+func VerifC02Race() {
+	sec := int64(1_000_000_000)
+	contextManager.VerifSetClock(verifClock{})
+	verifSetNow(1_700_000_000 * sec)
+	n := int(verifParam("N", 2))
+	max := int64(verifParam("max", 1))
+	cfg := quotaResource.QuotaConfig{ID: "c0", Filter: &streamConfig.Filter{Name: "f", URL: "api.example.com/*"},
+		Strategy: &quotaResource.StrategyConfig{Concurrent: &quotaResource.ConcurrentConfig{MaxRequestCount: max, RequestExpirationSec: 60, GCIntervalSec: 30}}}
+	q, err := quotaResource.NewQuota(&quotaResource.SingleQuotaResourceData{Quota: &cfg})
+	verifAssert(err == nil, "quota builds")
+	qq, err := q.GetQuota("c0")
+	verifAssert(err == nil, "quota found")
+	verifSched(int(verifParam("preempt", 2)))
+	verifRaceDetect(true)
+	admitted := make([]bool, n)
+	var wg sync.WaitGroup
+	for k := 0; k < n; k++ {
+		wg.Add(1)
+		go func(k int) {
+			defer wg.Done()
+			ok, err := qq.Allowed(&c02Stream{id: fmt.Sprintf("txn-%d", k)})
+			admitted[k] = err == nil && ok
+		}(k)
+	}
+	wg.Wait()
+	verifRaceDetect(false)
+	verifReach("joined")
+	cnt := int64(0)
+	for _, a := range admitted {
+		if a {
+			cnt++
+		}
+	}
+	verifAssert(cnt <= max, "C02: more transactions admitted at the same time than the quota's maximum")
+	verifAssert(cnt >= 1, "C02: a free slot was refused to every arrival")
 }
